@@ -680,6 +680,13 @@ def opJudge (j : Json) : Except String Json := do
         ("missing", famJson missing), ("extra", famJson extra)]
   | .error _ => throw "inferred"
 
+/-- the hypotheses of `or_inference_all_sound` on a raw miner tree -/
+def opWfRaw (j : Json) : Except String Json := do
+  let sets ← (← getArr j "sets").toList.mapM strsOf
+  let t ← ptreeOfJson (← j.getObjVal? "raw")
+  pure <| Json.mkObj [("wf", O2P.Gate.wfT false t), ("nd", decide (O2P.Gate.NE t.labels).Nodup),
+    ("names", sets.all fun s => !s.contains "")]
+
 /-- soundness against an explicit list of observed sets (no source tree): the observed sets the inferred tree does
 not admit -/
 def opAdmits (j : Json) : Except String Json := do
@@ -755,6 +762,7 @@ def handle (j : Json) : Except String Json := do
   | "gate.inferor" => GateOps.opInferOr j
   | "gate.post" => GateOps.opPost j
   | "gate.admits" => GateOps.opAdmits j
+  | "gate.wfraw" => GateOps.opWfRaw j
   | "wr.write" => WriterOps.opWrite j
   | _ => throw s!"unknown op {op}"
 
